@@ -436,7 +436,12 @@ def _run_unit_once(unit_path, repo="/repo", tier="quick", seed=0, keep=False, ex
             # function) that no contract clause names is a violation of the panic-freedom properties only (C01 streams, C02 files).
             # The functional properties sharing the function (cursor in view, round trips, ...) say nothing about it: no alarm there.
             # Functions that serve no panic-freedom property keep their own tags.
-            if not clause_tag and (kind in PANIC_KINDS or (kind == "requires-of-callee" and clause is None)):
+            # requires-of-callee is a panic obligation only when the violated precondition belongs to a std / vstd function (its span lies
+            # outside the unit file: unwrap, expect, slicing, remove ..) or to the panic-macro stand-in vx_panics; a precondition written in
+            # the unit (contract of an extracted function or of a stub) is a functional clause and keeps the function's tags
+            pre_in_unit = any(sp_["file_name"].endswith(res["unit"] + ".rs") and not sp_["is_primary"] for sp_ in d["spans"])
+            std_pre = kind == "requires-of-callee" and clause is None and (not pre_in_unit or "vx_panics" in src_text)
+            if not clause_tag and (kind in PANIC_KINDS or std_pre):
                 narrowed = [t for t in tags if t in PANIC_PROPS]
                 if narrowed:
                     tags = narrowed
